@@ -24,7 +24,7 @@ pub const O_ACCMODE: i64 = libc::O_ACCMODE as i64;
 
 /// Link bodies, one per shortcut visible in the resolvers (absolute, climbing, clamped, dangling, loops via names a/b, trailing slash, dot).
 pub fn bodies(thorough: bool) -> Vec<&'static str> {
-    let mut v = vec!["a", "b", "a/a", "/a", "/", ".", "..", "../b", "b/..", "x", "/../../../secret", "../../../secret", "a/"];
+    let mut v = vec!["a", "b", "a/a", "/a", "/", ".", "..", "../b", "b/..", "x", "/../../../secret", "../../../secret", "a/", "b/"];
     if thorough {
         v.extend_from_slice(&["//", "./a", "../..", "b/../a", "/..//a", "a//a", "b/.", "a/x", "x/..", "/b/a", "../a/a", "../../../outside/"]);
     }
